@@ -483,6 +483,21 @@ pub fn run(ctx: &mut Ctx) {
             run_one(&h, st, "join-walk");
         }
     });
+    // ---- (e) dynamic plans: a re-join whose CFList removes channels that the surviving mask still names
+    ctx.parallel(|ti, n, st| {
+        let mut j = 0usize;
+        for region in REGIONS.iter().filter(|r| !r.fixed()) {
+            for front in [FrontKind::Async, FrontKind::Nb, FrontKind::AsyncClassC] {
+                for k in 0..31 * 32 {
+                    j += 1;
+                    if j % n != ti || (!thorough && k % 6 != 1) {
+                        continue;
+                    }
+                    run_one(&gen::rejoin_cflist_history(*region, front, seed, k), st, "rejoin-cflist-removes-channels");
+                }
+            }
+        }
+    });
     // ---- (a) every word up to a bounded depth over the event alphabet
     crate::props::c04_alpha::run(ctx, &regions_alpha, if thorough { 4 } else { 3 });
     // ---- (c) random histories
